@@ -23,7 +23,7 @@ class C02(SCheck):
     prop = "C02"
     level = "exploration"
     default_seed = 2002
-    N = {"quick": 300, "thorough": 8000}
+    N = {"quick": 450, "thorough": 8000}
     K = {"quick": 2, "thorough": 4}
     technique = "deterministic simulation: seeded schedules and directory orders, whole-sandbox snapshot vs reference model of cp's mapping rule, histories of re-copies"
     rule = ("case = 1-3 source trees (nested dirs, files, relative/absolute/dangling links, names with spaces/unicode/non-UTF-8 bytes) x destination "
